@@ -91,7 +91,11 @@ type Sim struct {
 
 	wmu   sync.Mutex // real mutex: protects woken only
 	woken []*Task
-	sig   chan struct{}
+	// time.AfterFunc (chan.go): timers by handle, callbacks of fired timers waiting to be adopted as tasks
+	afters   map[*time.Timer]*afterRec
+	afterSeq uint64
+	fired    []*afterFire
+	sig      chan struct{}
 
 	step     uint64
 	switches int
@@ -285,6 +289,7 @@ func (s *Sim) loop() {
 	for {
 		synctest.Wait()
 		s.drainWoken()
+		s.adoptFired()
 		if c := s.current; c != nil {
 			if c.state == stRunning {
 				if !c.inReal {
